@@ -11,7 +11,9 @@ use dnsgen::bridge;
 use refdns::{name_from_str, t, Labels, MsgSpec, RecKey, Q};
 use serde::{Deserialize, Serialize};
 use simple_dns::{Name, Packet, ResourceRecord};
+use simple_mdns::async_discovery as adisc;
 use simple_mdns::sync_discovery::{OneShotMdnsResolver, ServiceDiscovery, SimpleMdnsResponder};
+use simrt::task::block_on;
 use simple_mdns::verif::{DomainResourceFilter, ResourceRecordManager};
 use simple_mdns::InstanceInformation;
 use simrt::sim::{EvKind, NetConfig, RunResult, SimConfig};
@@ -216,8 +218,34 @@ pub fn record_key(r: &ResourceRecord) -> Option<(RecKey, u32, bool, Vec<u8>)> {
 
 /// Dump a store under the three filters and cross-check stored (owned) records against the
 /// borrowed parse of the datagrams this node received (C16(3)).
+fn dump_manager(g: &ResourceRecordManager<'_>, entries: &mut Vec<StoreEntry>, c16: &mut Vec<String>, owned: &mut Vec<ResourceRecord<'static>>) {
+    let root = Name::new_with_labels(&[]);
+    for (fname, filter) in [
+        ("cached", DomainResourceFilter::cached()),
+        ("auth", DomainResourceFilter::authoritative(true)),
+        ("all", DomainResourceFilter::all()),
+    ] {
+        for group in g.get_domain_resources(&root, filter) {
+            for rec in group {
+                match record_key(rec) {
+                    Some((key, ttl, _cf, _)) => entries.push(StoreEntry { filter: fname.into(), key, ttl }),
+                    None => c16.push(format!("store: a stored record of type {:?} cannot be serialised", rec.rdata.type_code())),
+                }
+                if fname == "cached" {
+                    owned.push(rec.clone().into_owned());
+                }
+            }
+        }
+    }
+}
+
+enum StoreRef<'a> {
+    Sync(&'a simrt::sync::RwLock<ResourceRecordManager<'static>>),
+    Async(&'a simrt::shim_tokio::sync::RwLock<ResourceRecordManager<'static>>),
+}
+
 fn dump_store(
-    store: &simrt::sync::RwLock<ResourceRecordManager<'static>>,
+    store: StoreRef<'_>,
     node: u32,
     recv_from_seq: &mut u64,
     seen: &mut Vec<u32>,
@@ -225,25 +253,16 @@ fn dump_store(
     let mut entries = Vec::new();
     let mut c16 = Vec::new();
     let mut owned: Vec<ResourceRecord<'static>> = Vec::new();
-    {
-        let g = store.read().unwrap();
-        let root = Name::new_with_labels(&[]);
-        for (fname, filter) in [
-            ("cached", DomainResourceFilter::cached()),
-            ("auth", DomainResourceFilter::authoritative(true)),
-            ("all", DomainResourceFilter::all()),
-        ] {
-            for group in g.get_domain_resources(&root, filter) {
-                for rec in group {
-                    match record_key(rec) {
-                        Some((key, ttl, _cf, _)) => entries.push(StoreEntry { filter: fname.into(), key, ttl }),
-                        None => c16.push(format!("store: a stored record of type {:?} cannot be serialised", rec.rdata.type_code())),
-                    }
-                    if fname == "cached" {
-                        owned.push(rec.clone().into_owned());
-                    }
-                }
-            }
+    match store {
+        StoreRef::Sync(l) => {
+            let g = l.read().unwrap();
+            dump_manager(&g, &mut entries, &mut c16, &mut owned);
+        }
+        StoreRef::Async(l) => {
+            simrt::task::block_on(async {
+                let g = l.read().await;
+                dump_manager(&g, &mut entries, &mut c16, &mut owned);
+            });
         }
     }
     // datagrams received on this node since the last dump
@@ -290,16 +309,31 @@ enum Handle {
     Disc(ServiceDiscovery, Option<std::sync::mpsc::Receiver<InstanceInformation>>),
     Resp(SimpleMdnsResponder),
     Res(OneShotMdnsResolver),
+    ADisc(adisc::ServiceDiscovery, Option<simrt::shim_tokio::sync::mpsc::Receiver<InstanceInformation>>),
+    AResp(adisc::SimpleMdnsResponder),
+    ARes(adisc::OneShotMdnsResolver),
     Raw(net::UdpSocket),
     Failed,
 }
 
-fn drain_channel(obs: &ObsLog, node: u32, inc: u32, h: &Handle) {
-    if let Handle::Disc(_, Some(rx)) = h {
-        while let Ok(inst) = rx.try_recv() {
-            let c16 = c16_instance(&inst);
-            push(obs, ObsItem::Discovered { node, inc, seq: ctl::seq(), inst: InstObs::from_real(&inst), c16 });
+fn drain_channel(obs: &ObsLog, node: u32, inc: u32, h: &mut Handle) {
+    let mut got = Vec::new();
+    match h {
+        Handle::Disc(_, Some(rx)) => {
+            while let Ok(inst) = rx.try_recv() {
+                got.push(inst);
+            }
         }
+        Handle::ADisc(_, Some(rx)) => {
+            while let Ok(inst) = rx.try_recv() {
+                got.push(inst);
+            }
+        }
+        _ => {}
+    }
+    for inst in got {
+        let c16 = c16_instance(&inst);
+        push(obs, ObsItem::Discovered { node, inc, seq: ctl::seq(), inst: InstObs::from_real(&inst), c16 });
     }
 }
 
@@ -324,7 +358,39 @@ fn app_main(node: u32, inc: u32, spec: NodeSpec, from_ms: u64, sc: Arc<Scenario>
     ctl::mark(format!("ctor:{}:{}", node, inc));
     let mut timeout_ms = 3000u64;
     let handle = match &spec.kind {
-        NodeKind::Discovery { service, instance, ttl, channel } => {
+        NodeKind::Discovery { service, instance, ttl, channel, asyncv: true } => {
+            let (tx, rx) = simrt::shim_tokio::sync::mpsc::channel(4096);
+            let inst = build_instance(instance, sc.seed ^ node as u64);
+            let (svc, ttl, ch) = (service.clone(), *ttl, *channel);
+            match api(&obs, node, "async ServiceDiscovery::new", move || {
+                adisc::ServiceDiscovery::new_with_scope(inst, &svc, ttl, if ch { Some(tx) } else { None }, simple_mdns::NetworkScope::V4)
+            }) {
+                Some(Ok(d)) => {
+                    push(&obs, ObsItem::Constructed { node, inc, ok: true, err: String::new() });
+                    Handle::ADisc(d, if *channel { Some(rx) } else { None })
+                }
+                Some(Err(e)) => {
+                    push(&obs, ObsItem::Constructed { node, inc, ok: false, err: format!("{}", e) });
+                    Handle::Failed
+                }
+                None => Handle::Failed,
+            }
+        }
+        NodeKind::Responder { ttl, asyncv: true } => {
+            let ttl = *ttl;
+            match api(&obs, node, "async SimpleMdnsResponder::new", move || adisc::SimpleMdnsResponder::new(ttl)) {
+                Some(r) => {
+                    push(&obs, ObsItem::Constructed { node, inc, ok: true, err: String::new() });
+                    Handle::AResp(r)
+                }
+                None => Handle::Failed,
+            }
+        }
+        NodeKind::Resolver { asyncv: true } => match api(&obs, node, "async OneShotMdnsResolver::new", adisc::OneShotMdnsResolver::new) {
+            Some(Ok(r)) => Handle::ARes(r),
+            _ => Handle::Failed,
+        },
+        NodeKind::Discovery { service, instance, ttl, channel, .. } => {
             let (tx, rx) = std::sync::mpsc::channel();
             let inst = build_instance(instance, sc.seed ^ node as u64);
             let (svc, ttl, ch) = (service.clone(), *ttl, *channel);
@@ -342,7 +408,7 @@ fn app_main(node: u32, inc: u32, spec: NodeSpec, from_ms: u64, sc: Arc<Scenario>
                 None => Handle::Failed,
             }
         }
-        NodeKind::Responder { ttl } => {
+        NodeKind::Responder { ttl, .. } => {
             let ttl = *ttl;
             match api(&obs, node, "SimpleMdnsResponder::new", move || SimpleMdnsResponder::new(ttl)) {
                 Some(r) => {
@@ -352,7 +418,7 @@ fn app_main(node: u32, inc: u32, spec: NodeSpec, from_ms: u64, sc: Arc<Scenario>
                 None => Handle::Failed,
             }
         }
-        NodeKind::Resolver => match api(&obs, node, "OneShotMdnsResolver::new", OneShotMdnsResolver::new) {
+        NodeKind::Resolver { .. } => match api(&obs, node, "OneShotMdnsResolver::new", OneShotMdnsResolver::new) {
             Some(Ok(r)) => Handle::Res(r),
             _ => Handle::Failed,
         },
@@ -366,7 +432,7 @@ fn app_main(node: u32, inc: u32, spec: NodeSpec, from_ms: u64, sc: Arc<Scenario>
             continue;
         }
         ctl::sleep_until_ns(ms(*at));
-        drain_channel(&obs, node, inc, &handle);
+        drain_channel(&obs, node, inc, &mut handle);
         let mark_seq = ctl::mark(format!("op:{}:{}:{}", node, inc, idx));
         match (&mut handle, op) {
             (Handle::Resp(r), AppOp::AddResource(rec)) => {
@@ -382,7 +448,7 @@ fn app_main(node: u32, inc: u32, spec: NodeSpec, from_ms: u64, sc: Arc<Scenario>
             }
             (Handle::Resp(r), AppOp::DumpStore) => {
                 let store = r.verif_store();
-                if let Some((entries, c16)) = api(&obs, node, "dump_store", || dump_store(&store, node, &mut recv_from_seq, &mut seen)) {
+                if let Some((entries, c16)) = api(&obs, node, "dump_store", || dump_store(StoreRef::Sync(&store), node, &mut recv_from_seq, &mut seen)) {
                     push(&obs, ObsItem::Store { node, inc, mark_seq, entries, c16 });
                 }
             }
@@ -405,9 +471,76 @@ fn app_main(node: u32, inc: u32, spec: NodeSpec, from_ms: u64, sc: Arc<Scenario>
             }
             (Handle::Disc(d, _), AppOp::DumpStore) => {
                 let store = d.verif_store();
-                if let Some((entries, c16)) = api(&obs, node, "dump_store", || dump_store(&store, node, &mut recv_from_seq, &mut seen)) {
+                if let Some((entries, c16)) = api(&obs, node, "dump_store", || dump_store(StoreRef::Sync(&store), node, &mut recv_from_seq, &mut seen)) {
                     push(&obs, ObsItem::Store { node, inc, mark_seq, entries, c16 });
                 }
+            }
+            // ---- tokio variants: the same operations through block_on
+            (Handle::AResp(r), AppOp::AddResource(rec)) => {
+                let rr = bridge::record(rec);
+                api(&obs, node, "add_resource", || block_on(r.add_resource(rr)));
+            }
+            (Handle::AResp(r), AppOp::RemoveResource(rec)) => {
+                let rr = bridge::record(rec);
+                api(&obs, node, "remove_resource_record", || block_on(r.remove_resource_record(rr)));
+            }
+            (Handle::AResp(r), AppOp::Clear) => {
+                api(&obs, node, "clear", || block_on(r.clear()));
+            }
+            (Handle::AResp(r), AppOp::DumpStore) => {
+                let store = r.verif_store();
+                if let Some((entries, c16)) = api(&obs, node, "dump_store", || dump_store(StoreRef::Async(&store), node, &mut recv_from_seq, &mut seen)) {
+                    push(&obs, ObsItem::Store { node, inc, mark_seq, entries, c16 });
+                }
+            }
+            (Handle::ADisc(d, _), AppOp::GetKnown) => {
+                if let Some(known) = api(&obs, node, "get_known_services", || block_on(d.get_known_services())) {
+                    let mut c16 = Vec::new();
+                    for i in &known {
+                        c16.extend(c16_instance(i));
+                    }
+                    let insts = known.iter().map(InstObs::from_real).collect();
+                    push(&obs, ObsItem::Known { node, inc, mark_seq, insts, c16 });
+                }
+            }
+            (Handle::ADisc(d, _), AppOp::Announce(flush)) => {
+                let f = *flush;
+                api(&obs, node, "announce", || block_on(d.announce(f)));
+            }
+            (Handle::ADisc(d, _), AppOp::RemoveFromDiscovery) => {
+                api(&obs, node, "remove_service_from_discovery", || block_on(d.remove_service_from_discovery()));
+            }
+            (Handle::ADisc(d, _), AppOp::DumpStore) => {
+                let store = d.verif_store();
+                if let Some((entries, c16)) = api(&obs, node, "dump_store", || dump_store(StoreRef::Async(&store), node, &mut recv_from_seq, &mut seen)) {
+                    push(&obs, ObsItem::Store { node, inc, mark_seq, entries, c16 });
+                }
+            }
+            (Handle::ARes(r), AppOp::SetTimeoutMs(t)) => {
+                timeout_ms = *t;
+                r.set_query_timeout(Duration::from_millis(*t));
+            }
+            (Handle::ARes(r), AppOp::QueryAddress(n)) | (Handle::ARes(r), AppOp::QueryAddressPort(n)) => {
+                let start_ns = ctl::now_ns();
+                let port = matches!(op, AppOp::QueryAddressPort(_));
+                let res = api(&obs, node, "resolver_query", || {
+                    block_on(async {
+                        if port {
+                            format!("{:?}", r.query_service_address_and_port(n).await.map_err(|e| e.to_string()))
+                        } else {
+                            format!("{:?}", r.query_service_address(n).await.map_err(|e| e.to_string()))
+                        }
+                    })
+                });
+                push(&obs, ObsItem::Resolver {
+                    node,
+                    op: format!("{:?}", op),
+                    start_ns,
+                    end_ns: ctl::now_ns(),
+                    timeout_ms,
+                    result: res.unwrap_or_else(|| "<panicked>".into()),
+                    probe: false,
+                });
             }
             (Handle::Res(r), AppOp::SetTimeoutMs(t)) => {
                 timeout_ms = *t;
@@ -458,7 +591,7 @@ fn app_main(node: u32, inc: u32, spec: NodeSpec, from_ms: u64, sc: Arc<Scenario>
             }
             _ => {}
         }
-        drain_channel(&obs, node, inc, &handle);
+        drain_channel(&obs, node, inc, &mut handle);
     }
     if !sc.probe {
         return;
@@ -475,6 +608,30 @@ fn app_main(node: u32, inc: u32, spec: NodeSpec, from_ms: u64, sc: Arc<Scenario>
         Handle::Disc(d, _) => {
             let ok = api(&obs, node, "probe:get_known_services", || d.get_known_services()).is_some();
             push(&obs, ObsItem::ProbeApi { node, ok, what: "get_known_services".into() });
+        }
+        Handle::AResp(r) => {
+            let rr = bridge::record(&probe_record(node));
+            let ok = api(&obs, node, "probe:add_resource", || block_on(r.add_resource(rr))).is_some();
+            push(&obs, ObsItem::ProbeApi { node, ok, what: "add_resource".into() });
+        }
+        Handle::ADisc(d, _) => {
+            let ok = api(&obs, node, "probe:get_known_services", || block_on(d.get_known_services())).is_some();
+            push(&obs, ObsItem::ProbeApi { node, ok, what: "get_known_services".into() });
+        }
+        Handle::ARes(r) => {
+            r.set_query_timeout(Duration::from_millis(300));
+            ctl::sleep_until_ns(ms(sc.duration_ms + SETTLE_MS + PROBE_WINDOW_MS + 500));
+            let start_ns = ctl::now_ns();
+            let res = api(&obs, node, "probe:resolver_query", || block_on(async { format!("{:?}", r.query_service_address("nobody.verif.local").await.map_err(|e| e.to_string())) }));
+            push(&obs, ObsItem::Resolver {
+                node,
+                op: "probe".into(),
+                start_ns,
+                end_ns: ctl::now_ns(),
+                timeout_ms: 300,
+                result: res.unwrap_or_else(|| "<panicked>".into()),
+                probe: true,
+            });
         }
         Handle::Res(r) => {
             r.set_query_timeout(Duration::from_millis(300));
@@ -494,7 +651,7 @@ fn app_main(node: u32, inc: u32, spec: NodeSpec, from_ms: u64, sc: Arc<Scenario>
         _ => {}
     }
     ctl::sleep_until_ns(ms(sc.duration_ms + SETTLE_MS + PROBE_WINDOW_MS + 2_500));
-    drain_channel(&obs, node, inc, &handle);
+    drain_channel(&obs, node, inc, &mut handle);
     drop(handle);
 }
 
@@ -537,6 +694,7 @@ pub fn run(sc: &Scenario) -> RunOutput {
         net_seed: sc.knobs.net_seed,
         max_steps: sc.max_steps,
         step_jitter_ns: sc.knobs.step_jitter_ns,
+        spin_limit_ms: 10_000,
         net: net_config(sc),
         scripted_payload: vec![],
     };
